@@ -13,6 +13,7 @@ import (
 	"strings"
 	"sync"
 	"testing"
+	"time"
 
 	"filippo.io/age"
 	"filippo.io/age/agessh"
@@ -135,6 +136,15 @@ func c19File(c c19Case, a c19Action, n int) ([]byte, []byte) {
 			st := refStanza(p, hx.RecSpec{Kind: other, Idx: 3}, fk, uint64(n*10+i))[0]
 			st.Args[0] = refStanza(p, c19Spec(c.Type, "A"), fk, 1)[0].Args[0]
 			sts = append(sts, st)
+		case "onearg":
+			// a stanza of the identity's type for another key (C's tag) that lacks its second argument
+			st := refStanza(p, c19Spec(c.Type, "C"), fk, uint64(n*10+i))[0]
+			if c.Type == "rsa" {
+				st.Args = append(st.Args, "extra") // ssh-rsa stanzas have one argument: here one too many
+			} else {
+				st.Args = st.Args[:1]
+			}
+			sts = append(sts, st)
 		case "noargs":
 			t := "ssh-ed25519"
 			if c.Type == "rsa" {
@@ -207,7 +217,11 @@ func c19Check(c c19Case, st *stats.Run) error {
 		file, plain := c19File(c, a, n)
 		answer = a.Answer
 		before := prompts
-		got, derr, _ := decryptLib(file, hx.Delivery{Mode: "whole"}, []int{4096}, false, id)
+		var got []byte
+		var derr error
+		if returned, panicked := pbt.Watchdog(60*time.Second, func() { got, derr, _ = decryptLib(file, hx.Delivery{Mode: "whole"}, []int{4096}, false, id) }); !returned || panicked != nil {
+			return pbt.Failf("C19/history-dependent-outcome", "action %d: Decrypt of a file with stanzas %v did not return within 60 s (panic: %v) after the history %+v: an earlier call left the identity unusable", n, a.Stanzas, panicked, c.Actions[:n])
+		}
 		asked := prompts - before
 		outcome := "fatal"
 		var nm *age.NoIdentityMatchError
@@ -221,7 +235,7 @@ func c19Check(c c19Case, st *stats.Run) error {
 			outcome = "nomatch"
 		}
 		match := has(a.Stanzas, "A")
-		malformed := has(a.Stanzas, "noargs")
+		malformed := has(a.Stanzas, "noargs") || has(a.Stanzas, "onearg")
 		if earlierFailure != "" && n > 0 {
 			nontrivial = true
 		}
@@ -249,6 +263,26 @@ func c19Check(c c19Case, st *stats.Run) error {
 			}
 		}
 		hist := fmt.Sprintf("history so far: %+v (earlier failure: %q, validated: %v)", c.Actions[:n], earlierFailure, validated)
+		if malformed && (a.Answer == "right" || validated) && !c.SharedBuf {
+			// whatever such a file does to a fresh identity, it does to this one: the outcome does not depend on earlier calls
+			fresh, ferr := agessh.NewEncryptedSSHIdentity(pub, pem, func() ([]byte, error) { return []byte(hx.SSHPassphrase), nil })
+			if ferr != nil {
+				return pbt.Failf("C19/harness", "%v", ferr)
+			}
+			fgot, fderr, _ := decryptLib(file, hx.Delivery{Mode: "whole"}, []int{4096}, false, fresh)
+			foutcome := "fatal"
+			var fnm *age.NoIdentityMatchError
+			switch {
+			case fderr == nil:
+				foutcome = "success"
+			case errors.As(fderr, &fnm):
+				foutcome = "nomatch"
+			}
+			_ = fgot
+			if foutcome != outcome {
+				return pbt.Failf("C19/history-dependent-outcome", "action %d: a file with stanzas %v gives %s (%v) to this identity after the history %+v, and %s (%v) to a fresh identity of the same key file", n, a.Stanzas, outcome, derr, c.Actions[:n], foutcome, fderr)
+			}
+		}
 		if malformed {
 			// a stanza of the identity's type without arguments: only the prompt rule is asserted
 			if asked > 1 || (asked == 1 && (!match || validated)) {
@@ -390,11 +424,11 @@ func c19Gen(t *rapid.T) c19Case {
 		case 2:
 			a.Stanzas = []string{"B"}
 		case 3:
-			a.Stanzas = []string{rapid.SampledFrom([]string{"C", "X", "other", "Acase", "otherTypeTagA", "stored", "Abits"}).Draw(t, "foreign")}
+			a.Stanzas = []string{rapid.SampledFrom([]string{"C", "X", "other", "Acase", "otherTypeTagA", "stored", "Abits", "onearg"}).Draw(t, "foreign")}
 		default:
 			m := rapid.IntRange(1, 4).Draw(t, "nst")
 			for j := 0; j < m; j++ {
-				a.Stanzas = append(a.Stanzas, rapid.SampledFrom([]string{"A", "B", "C", "X", "other", "noargs", "Acase", "otherTypeTagA", "stored", "Abits"}).Draw(t, "st"))
+				a.Stanzas = append(a.Stanzas, rapid.SampledFrom([]string{"A", "B", "C", "X", "other", "noargs", "Acase", "otherTypeTagA", "stored", "Abits", "onearg", "onearg"}).Draw(t, "st"))
 			}
 		}
 		a.Answer = rapid.SampledFrom([]string{"right", "right", "wrong", "error", "empty"}).Draw(t, "answer")
@@ -452,6 +486,18 @@ func TestC19(t *testing.T) {
 			}
 		}
 		s.St.Exhaust("ssh-rsa identity whose key file holds a same-modulus key with another exponent: 9 three-call histories over files for the declared and for the stored key; callbacks that hand out one shared passphrase slice", int64(n))
+	}, check)
+	pbt.Each(s, "histories-exhaustive", func(yield func(c19Case)) {
+		n := 0
+		for _, f := range [][]string{{"onearg", "A"}, {"A", "onearg"}, {"noargs", "A"}, {"X", "onearg", "A"}} {
+			for _, first := range []string{"right", "error", "wrong"} {
+				if s.Mine(n) {
+					yield(c19Case{Type: "ed25519", Actions: []c19Action{{f, first}, {f, "right"}, {f, "right"}, {[]string{"A"}, "right"}}})
+				}
+				n++
+			}
+		}
+		s.St.Exhaust("files with a malformed stanza of the identity's type before or after its own stanza, decrypted three times over (first answer right, wrong or an error from the callback), then an ordinary file", int64(n))
 	}, check)
 	pbt.Each(s, "histories-cli", func(yield func(c19CLI)) {
 		n := 0
